@@ -267,7 +267,7 @@ FINDING_LAMBDA = {
 }
 
 
-def _fit_job(sc, jid, seed, n=40, lam=None, features=("x1",)):
+def _fit_job(sc, jid, seed, n=64, lam=None, features=("x1",)):
     return {
         "kind": "fit",
         "id": jid,
